@@ -351,6 +351,27 @@ static std::string handle(const std::vector<std::string>& a) {
     else { MsgPackBinary b = doc.as<MsgPackBinary>(); r += " back=" + (b.data() ? "s" + hex((const char*)b.data(), b.size()) : std::string("-")); }
     return r;
   }
+  // STK <J|M> <L> <filterhex|-> <hex> : stack bytes consumed by one deserializer call (custom reader probing the
+  // stack pointer at every read), with the result code
+  if (a[0] == "STK" && a.size() == 5) {
+    bool json = a[1] == "J";
+    int L = std::stoi(a[2]);
+    std::string input = unhex(a[4]);
+    JsonDocument fdoc;
+    bool filtered = a[3] != "-";
+    if (filtered) { std::string ftxt = unhex(a[3]); deserializeJson(fdoc, ftxt.c_str(), ftxt.size(), DeserializationOption::NestingLimit(50)); }
+    JsonVariantConst fv = fdoc.as<JsonVariantConst>();
+    auto NL = DeserializationOption::NestingLimit((uint8_t)L);
+    auto FL = DeserializationOption::Filter(fv);
+    JsonDocument doc;
+    StackProbeReader rd(input);
+    volatile char base = 0;
+    uintptr_t top = reinterpret_cast<uintptr_t>(&base);
+    DeserializationError err = json ? (filtered ? deserializeJson(doc, rd, FL, NL) : deserializeJson(doc, rd, NL))
+                                    : (filtered ? deserializeMsgPack(doc, rd, FL, NL) : deserializeMsgPack(doc, rd, NL));
+    size_t used = rd.lowest == ~uintptr_t(0) ? 0 : (top > rd.lowest ? size_t(top - rd.lowest) : 0);
+    return std::string(codeName(err)) + " stack=" + std::to_string(used) + " nesting=" + std::to_string(doc.nesting());
+  }
   // MR <hex> : deserializeMsgPack then serializeMsgPack and serializeJson of the result
   if (a[0] == "MR" && a.size() == 2) {
     std::string input = unhex(a[1]);
